@@ -286,6 +286,48 @@ class SymInt:
 # ------------------------------------------------------------------------------------
 
 
+_CVC5 = None
+
+
+def _cvc5_bin():
+    global _CVC5
+    if _CVC5 is None:
+        import shutil
+        _CVC5 = shutil.which("cvc5") or ""
+    return _CVC5
+
+
+def cvc5_verdict(assertions, extra, timeout_ms=4000):
+    """Second opinion on 'assertions AND extra' from the cvc5 binary: 'sat' | 'unsat' | None."""
+    exe = _cvc5_bin()
+    if not exe:
+        return None
+    import os
+    import subprocess
+    import tempfile
+    s2 = z3.Solver()
+    s2.add(*assertions)
+    s2.add(extra)
+    text = "(set-logic ALL)\n" + s2.to_smt2()
+    fd, path = tempfile.mkstemp(suffix=".smt2")
+    try:
+        with os.fdopen(fd, "w") as f:
+            f.write(text)
+        r = subprocess.run([exe, "--lang=smt2", f"--tlimit={timeout_ms}", path], capture_output=True, text=True,
+                           timeout=timeout_ms / 1000 + 5)
+        out = r.stdout.strip().splitlines()
+        if out and out[0] in ("sat", "unsat") and "(error" not in r.stdout:
+            return out[0]
+        return None
+    except Exception:
+        return None
+    finally:
+        try:
+            os.unlink(path)
+        except OSError:
+            pass
+
+
 class Space:
     def __init__(self, seed=0):
         self.plan = []  # [decision, other side pending, condition hash]
@@ -295,6 +337,11 @@ class Space:
         )
         self.abort_reasons = {}
         self.seed = seed
+        import random
+        self.rng = random.Random(seed * 7919 + 13)
+        self.p_cross = 0.0
+        self.stats["cvc5_crosschecked"] = 0
+        self.stats["cvc5_inconclusive"] = 0
 
     def begin(self):
         self.solver = z3.Solver()
@@ -401,7 +448,16 @@ class Space:
         c = _simp(c)
         if z3.is_false(c):
             return None
-        if self._check(c):
+        sat = self._check(c)
+        if self.p_cross and self.rng.random() < self.p_cross:
+            other = cvc5_verdict(self.solver.assertions(), c)
+            if other is None:
+                self.stats["cvc5_inconclusive"] += 1
+            else:
+                self.stats["cvc5_crosschecked"] += 1
+                if (other == "sat") != sat:
+                    raise Nondeterminism(f"cvc5 disagrees with z3 on an obligation query (z3: {'sat' if sat else 'unsat'}, cvc5: {other})")
+        if sat:
             return self.solver.model()
         return None
 
@@ -518,7 +574,7 @@ def _run_in_thread(fn):
 
 
 def explore(harness, *, seed=0, max_paths=10**7, deadline=None, on_violation=None,
-            on_path_end=None, fresh_thread=True):
+            on_path_end=None, fresh_thread=True, p_cross=0.0):
     """Run `harness(ctx)` once per feasible path.  Returns stats dict.
 
     on_violation(label, model_values, info) is called for each failed obligation.
@@ -526,6 +582,7 @@ def explore(harness, *, seed=0, max_paths=10**7, deadline=None, on_violation=Non
     """
     global _space
     sp = Space(seed)
+    sp.p_cross = p_cross
     _space = sp
     violations = []
 
